@@ -559,7 +559,9 @@ func c01Handoff(p *Prog, r *Report) {
 	r.check(len(bad) == 0, rule, "ClientConn.Receive", p.Pos(recv.Pos()), fmt.Sprintf("%d matched-request paths", n), strings.Join(dedupe(bad), " || "))
 
 	// wrappers forward exactly once
-	for _, w := range []struct{ m, to string }{{"OnResult", "Execute"}, {"OnClose", "OnClose"}} {
+	// (a lost connection during the re-prepare hands the original request on with Execute as well:
+	// it was answered UNPREPARED, so it is not in flight and moves to the next host)
+	for _, w := range []struct{ m, to string }{{"OnResult", "Execute"}, {"OnClose", "Execute"}} {
 		fn := p.methodOf(prepReq, w.m)
 		if fn == nil {
 			fatalf("anchor: prepareRequest.%s not found", w.m)
